@@ -205,6 +205,76 @@ struct Drv {
         cmp("ge", [](V a, V b) { return a >= b; });
     }
 
+    //--------------------------------------------------------------------
+    // Exhaustive sweep of all 2^32 lane values (32-bit types, thorough tier).
+    // The property names its own reference (C++20 <bit> on the element type);
+    // the driver computes it with the compiler builtins and records every
+    // input on which AVEL and the reference DIFFER.  The comparison decides
+    // nothing: it only selects which facts TLC judges (a reference bug can
+    // therefore not become an AVEL violation).
+    //--------------------------------------------------------------------
+    template<class F, class R>
+    void sweep_un(const char* op, F f, R ref) {
+        set_label(tn, op);
+        unsigned long diffs = 0;
+        const std::uint64_t BLOCK = 1ull << 20;          // one guard per block: a trap is attributed to the block
+        static std::vector<S> out(BLOCK);
+        for (std::uint64_t base = 0; base < (1ull << 32); base += BLOCK) {
+            int sg = guarded([&] {
+                for (std::uint64_t x = base; x < base + BLOCK; x += N) {
+                    A a;
+                    for (unsigned j = 0; j < N; ++j) a[j] = S(US(x + j));
+                    opaque(a);
+                    auto rv = avel::to_array(f(V(a)));
+                    std::memcpy(&out[x - base], &rv, sizeof(rv));
+                }
+            });
+            for (std::uint64_t x = base; x < base + BLOCK; ++x) {
+                S a = S(US(x));
+                if (sg || US(out[x - base]) != US(ref(US(x)))) {
+                    if (++diffs <= 200000)
+                        emit(Fact(op, K).val("a", a).val("r", sg ? S(0) : out[x - base]).signal(sg), tn, int(x % N), "sweep");
+                }
+            }
+        }
+        std::fprintf(stderr, "vh-sweep: %s %s inputs=4294967296 disagreements=%lu\n", tn, op, diffs);
+    }
+    template<class VV = V>
+    typename std::enable_if<sizeof(typename VV::scalar) == 4>::type sweep32() {
+        typedef std::uint32_t U;
+        sweep_un("popcount", [](V a) { return avel::popcount(a); }, [](U x) { return U(__builtin_popcount(x)); });
+        sweep_un("countl_zero", [](V a) { return avel::countl_zero(a); }, [](U x) { return U(x ? __builtin_clz(x) : 32); });
+        sweep_un("countl_one", [](V a) { return avel::countl_one(a); }, [](U x) { return U(~x ? __builtin_clz(~x) : 32); });
+        sweep_un("countr_zero", [](V a) { return avel::countr_zero(a); }, [](U x) { return U(x ? __builtin_ctz(x) : 32); });
+        sweep_un("countr_one", [](V a) { return avel::countr_one(a); }, [](U x) { return U(~x ? __builtin_ctz(~x) : 32); });
+        sweep_un("byteswap", [](V a) { return avel::byteswap(a); }, [](U x) { return U(__builtin_bswap32(x)); });
+        sweep_un("not", [](V a) { return ~a; }, [](U x) { return U(~x); });
+        sweep_un("neg", [](V a) { return -a; }, [](U x) { return U(0u - x); });
+        sweep_un("neg_abs", [](V a) { return avel::neg_abs(a); }, [](U x) { return (x >> 31) ? x : U(0u - x); });
+        sweep_unsigned32();
+        sweep_signed32();
+    }
+    template<class VV = V>
+    typename std::enable_if<sizeof(typename VV::scalar) != 4>::type sweep32() {}
+    template<class VV = V>
+    typename std::enable_if<!std::is_signed<typename VV::scalar>::value>::type sweep_unsigned32() {
+        typedef std::uint32_t U;
+        sweep_un("bit_width", [](V a) { return avel::bit_width(a); }, [](U x) { return U(x ? 32 - __builtin_clz(x) : 0); });
+        sweep_un("bit_floor", [](V a) { return avel::bit_floor(a); }, [](U x) { return U(x ? 1u << (31 - __builtin_clz(x)) : 0); });
+        sweep_un("bit_ceil", [](V a) { return avel::bit_ceil(a); },
+                 [](U x) { return U(x <= 1 ? 1u : (x > 0x80000000u ? 0u : (x == 0x80000000u ? x : 1u << (32 - __builtin_clz(x - 1))))); });
+    }
+    template<class VV = V>
+    typename std::enable_if<std::is_signed<typename VV::scalar>::value>::type sweep_unsigned32() {}
+    template<class VV = V>
+    typename std::enable_if<std::is_signed<typename VV::scalar>::value>::type sweep_signed32() {
+        typedef std::uint32_t U;
+        sweep_un("countl_sign", [](V a) { return avel::countl_sign(a); }, [](U x) { return U(__builtin_clrsb(int(x))); });
+        sweep_un("abs", [](V a) { return avel::abs(a); }, [](U x) { return (x >> 31) ? U(0u - x) : x; });
+    }
+    template<class VV = V>
+    typename std::enable_if<!std::is_signed<typename VV::scalar>::value>::type sweep_signed32() {}
+
     // C03: mask(vector) is set exactly where the lane is non-zero
     void tomask() {
         un_pred("nz", "op", [](V a) { return M(a); });
@@ -769,6 +839,7 @@ int main(int argc, char** argv) {
         else if (family == "bitfn") d.bitfn();                                   \
         else if (family == "select") d.select();                                 \
         else if (family == "tomask") d.tomask();                                 \
+        else if (family == "sweep32") d.sweep32();                               \
     }
     if (!std::getenv("VH_SCALAR_ONLY")) {
         VH_INT_TYPES(RUN_V)
